@@ -59,6 +59,113 @@ def _one(args) -> Tuple[int, str, str]:
     return ix, "silent", ""
 
 
+# ------------------------------------------------------------------ stored behaviour-preserving refactorings (twins/)
+def _parse_patch(text: str) -> Dict[str, List[Tuple[List[str], List[str]]]]:
+    """unified diff -> {path: [(old lines, new lines)] per hunk}; new files / deletions are ignored"""
+    out: Dict[str, List[Tuple[List[str], List[str]]]] = {}
+    cur = None
+    old: List[str] = []
+    new: List[str] = []
+    lines = text.splitlines()
+    i = 0
+
+    def flush():
+        nonlocal old, new
+        if cur is not None and (old or new):
+            out.setdefault(cur, []).append((old, new))
+        old, new = [], []
+    while i < len(lines):
+        ln = lines[i]
+        if ln.startswith("diff --git"):
+            flush()
+            cur = None
+        elif ln.startswith("--- "):
+            a = ln[4:].strip()
+            b = lines[i + 1][4:].strip() if i + 1 < len(lines) and lines[i + 1].startswith("+++ ") else ""
+            flush()
+            cur = b[2:] if a.startswith("a/") and b.startswith("b/") else None     # /dev/null side: skip
+            i += 1
+        elif ln.startswith("@@"):
+            flush()
+        elif cur is not None and ln.startswith("+"):
+            new.append(ln[1:])
+        elif cur is not None and ln.startswith("-"):
+            old.append(ln[1:])
+        elif cur is not None and (ln.startswith(" ") or ln == ""):
+            old.append(ln[1:])
+            new.append(ln[1:])
+        i += 1
+    flush()
+    return out
+
+
+def _apply_hunks(src: str, hunks) -> str:
+    """apply hunks by exact match of their old block (must occur exactly once); raises ValueError otherwise"""
+    lines = src.split("\n")
+    for old, new in hunks:
+        n = len(old)
+        pos = [k for k in range(len(lines) - n + 1) if lines[k:k + n] == old]
+        if len(pos) != 1:
+            raise ValueError("hunk context found %d times" % len(pos))
+        lines[pos[0]:pos[0] + n] = new
+    return "\n".join(lines)
+
+
+def _twin_job(args):
+    pid, root, tid, patch_path, base_viol, base_err = args
+    try:
+        hunks = _parse_patch(pathlib.Path(patch_path).read_text(encoding="utf8"))
+        overlay = {}
+        for rel, hs in hunks.items():
+            if not rel.endswith(".py"):
+                continue
+            src = (pathlib.Path(root) / rel).read_text(encoding="utf8")
+            overlay[rel] = _apply_hunks(src, hs)
+            compile(overlay[rel], rel, "exec")
+    except (OSError, ValueError, SyntaxError) as e:
+        return tid, "skipped", f"patch does not apply to the current tree: {e}"
+    if not overlay:
+        return tid, "skipped", "no python file in the patch"
+    try:
+        viol, err = _verdict(pid, root, overlay)
+    except Exception as e:
+        viol, err = [], [f"{type(e).__name__}: {e}"]
+    new_viol = [v for v in viol if v not in base_viol]
+    new_err = [e for e in err if e not in base_err]
+    if new_viol or new_err:
+        return tid, "FAIL", f"behaviour-preserving refactoring raised {new_viol[:2] or new_err[:1]}"
+    return tid, "silent", ""
+
+
+def run_stored_twins(pid: str, root: str, base_viol, base_err) -> dict:
+    """every refactoring stored under twins/ (confirmed behaviour-preserving: identical result digests, suite unchanged) is applied
+    IN MEMORY to the current sources and the property's rules are re-evaluated: no new violation, no new analysis error.
+    Twins listed in twins/EXPECTED_UNDECIDED.json for this property are allowed an analysis error (never a violation)."""
+    import json
+    tdir = pathlib.Path(__file__).resolve().parent.parent / "twins"
+    if not tdir.is_dir():
+        return dict(total=0, silent=0, skipped=0, failures=[])
+    allow = {}
+    ex = tdir / "EXPECTED_UNDECIDED.json"
+    if ex.exists():
+        allow = json.loads(ex.read_text())
+    jobs = [(pid, root, d.name, str(d / "patch.diff"), base_viol, base_err) for d in sorted(tdir.iterdir()) if (d / "patch.diff").exists()]
+    if not jobs:
+        return dict(total=0, silent=0, skipped=0, failures=[])
+    with ProcessPoolExecutor(max_workers=min(16, len(jobs), os.cpu_count() or 4)) as exr:
+        res = list(exr.map(_twin_job, jobs))
+    fails = []
+    undec = []
+    for tid, st, what in res:
+        if st == "FAIL":
+            if pid in allow.get(tid, []) and "raised [(" not in what:
+                undec.append(tid)
+            else:
+                fails.append(f"twin {tid}: {what}")
+    return dict(total=len(res), silent=sum(1 for r in res if r[1] == "silent"), skipped=sum(1 for r in res if r[1] == "skipped"),
+                expected_undecided=undec, failures=fails)
+
+
 def run_for_property(pid: str, seed: int, root: str, sample: int = 0) -> dict:
     from .selftest_variants import VARIANTS
     mine = [v for v in VARIANTS if v[0] == pid]
@@ -81,7 +188,9 @@ def run_for_property(pid: str, seed: int, root: str, sample: int = 0) -> dict:
     silent = sum(1 for r in results if r[1] == "silent")
     skipped = [(mine[r[0]][1], r[2]) for r in results if r[1] == "skipped"]
     failures = [f"{mine[r[0]][1]}: '{mine[r[0]][2][:40]}' -> '{mine[r[0]][3][:40]}': {r[2]}" for r in results if r[1] == "FAIL"]
-    return dict(variants=len(mine), caught=caught, twins_silent=silent, skipped=len(skipped),
+    stored = run_stored_twins(pid, root, base_viol, base_err)
+    failures = failures + stored["failures"]
+    return dict(variants=len(mine), caught=caught, twins_silent=silent, skipped=len(skipped), stored_twins=stored,
                 skipped_detail=[f"{a}: {b}" for a, b in skipped][:10], failures=failures,
                 detail=[dict(file=mine[r[0]][1], kind=mine[r[0]][4], rule=mine[r[0]][5], outcome=r[1], what=r[2][:160]) for r in results])
 
